@@ -213,6 +213,7 @@ theorem binCore_sound (rec : E → Prec → Option E) (hrec : ∀ e p t, rec e p
         subst h
         exact eval_bin_congr op x1 x' y y' (hrec _ _ _ hx) (hrec _ _ _ hy).1 ha
   · rw [if_neg hio] at h
+    simp only [binPrep] at h
     cases hi : isUndefinedOrNullVar (.bin op x1 y) with
     | some r =>
       obtain ⟨v, neg⟩ := r
@@ -431,13 +432,22 @@ theorem descend_sound (hH : HostOk H) (rw rec : E → Prec → Option E)
             exact hdef _ h (fun x' hx' => hrec _ _ _ hx')
   | dot x name =>
     simp only [descend] at h
-    split at h
-    · rename_i n
+    cases hd : dotNumObj x with
+    | some n =>
+      simp only [hd] at h
+      have hx : x = .group (.lit (.num n)) := by
+        unfold dotNumObj at hd
+        split at hd
+        · injection hd with hd; subst hd; rfl
+        · cases hd
+      subst hx
       split at h
       · injection h with h; subst h
         exact ⟨by simp [eval], fun _ => by simp [lref, eval]⟩
       · cases h
-    · exact map_good h (fun x' hx' =>
+    | none =>
+      simp only [hd] at h
+      exact map_good h (fun x' hx' =>
         ⟨by simp [eval, (hrec _ _ _ hx').1], fun _ => by simp [lref, (hrec _ _ _ hx').1]⟩)
   | index x y =>
     simp only [descend] at h
@@ -446,14 +456,23 @@ theorem descend_sound (hH : HostOk H) (rw rec : E → Prec → Option E)
     | some x' =>
       simp only [hx] at h
       have hxe := (hrec _ _ _ hx).1
-      split at h
-      · rename_i s0
+      cases hs : strLit? y with
+      | some s0 =>
+        simp only [hs] at h
+        have hy : y = .lit (.str s0) := by
+          unfold strLit? at hs
+          split at hs
+          · injection hs with hs; subst hs; rfl
+          · cases hs
+        subst hy
         split at h
         · injection h with h; subst h
           exact ⟨by simp [eval, hxe], fun _ => by simp [lref, hxe]⟩
         · exact map_good h (fun y' hy' =>
             ⟨by simp [eval, hxe, (hrec _ _ _ hy').1], fun _ => by simp [lref, hxe, (hrec _ _ _ hy').1]⟩)
-      · exact map_good h (fun y' hy' =>
+      | none =>
+        simp only [hs] at h
+        exact map_good h (fun y' hy' =>
           ⟨by simp [eval, hxe, (hrec _ _ _ hy').1], fun _ => by simp [lref, hxe, (hrec _ _ _ hy').1]⟩)
   | group x =>
     simp only [descend] at h
